@@ -37,6 +37,10 @@ func init() {
 				`func f(a,b){a+b}`, `func f(){}`, `func f(a){if a<2 {return a}; f(a-1)+f(a-2)}`, `func f(a,..){len(..)+a}`, `f = func(a){a*2}`, `f = a => a+1`, `f = (a,b) => {println(a); a-b}`,
 				`func f(a){for i=3 {if i==a {break}; println(i)}; [a, {a:a}, "s"][0]}`, `func f(a){g = x => x*a; g(2)}`, `f = () => 1`, `func f(a){a[1:]}`, `func f(a){-a - -a}`,
 				`func f(a){m={"k":a}; m.k + m["k"]}`, `func f(a){x = a; x++; x}`, `func f(a) {// comment` + "\n" + `a /* c */ + 1}`,
+				// bodies whose value depends on the parentheses the saved text keeps
+				`func f(a,b){a - (b + 1)}`, `func f(a,b){100 / (a * b)}`, `func f(a,b){a - (b - 1)}`, `func f(a,b){(a + b) * 2}`, `func f(a,b){a % (b * 2)}`, `func f(a,b){10 - (a - (b + 1))}`,
+				`func f(a,b){a << (b >> 1)}`, `func f(a,b){!(a < b) == (a > b)}`, `func f(a,b){-(a + b)}`, `func f(a,b){a - (b + 1) * (a - (b - a))}`, `func f(a,b){(a, b) => a - (b - 1)}`, `func f(a,b){[a - (b + a)][0] + {1: a / (b / 2)}[1]}`,
+				`func f(a,b){(x => x * 2)(a + b)}`, `func f(a,b){if (a < b) == true {-(-a)} else {a--; a}}`, `func f(a,b){(a + b)[0]}`, `func f(a,b){"x" + ("y" + "z") * 2}`,
 				`ab = 1`, `a_b1 = 2`, `x = 1; y = 2; z = x + y`, `K = 5`, `x = [1,2]; y = x; z = {x: y}`,
 			} {
 				j("none", "0", in)
@@ -54,7 +58,7 @@ func init() {
 		Bounds: map[string]interface{}{"strings": "all strings of 1 arbitrary byte (2 thorough) as a global, inside an array, as map key and value: strconv.Quote, the lexer's readString and the parser run from their own code on the symbolic bytes (atoms off)",
 			"integers":  "all integers with |i| < 20 (1000 thorough) through strconv.FormatInt, the lexer and strconv.ParseInt executed digit by digit; both int64 extremes as concrete paths",
 			"floats":    "concrete witnesses only (integral-valued, subnormal, huge, infinity, -0, 0.1+0.2): FormatFloat/ParseFloat are not encoded - this is NOT an all-floats claim",
-			"structure": "booleans, nil, strings with escapes, arrays and maps on both sides of the 8/4 thresholds, map keys of every type, nested containers, 17 function/lambda shapes (re-saved text equal and same behaviour on sample arguments), MaxValueLen at 9..13 around a 11-byte value"},
+			"structure": "booleans, nil, strings with escapes, arrays and maps on both sides of the 8/4 thresholds, map keys of every type, nested containers, 33 function/lambda shapes (16 of them with a body whose value depends on parentheses) (re-saved text equal and same behaviour on sample arguments), MaxValueLen at 9..13 around a 11-byte value"},
 		Outside: []string{"floats other than the witnesses", "integers beyond the digit bound other than the extremes", "strings longer than 1 (2) arbitrary bytes"},
 	})
 }
